@@ -13,8 +13,9 @@ from harness._h import NoTracing, known, opened_auditwall, pick
 from vlib import gen
 
 SDL = """
-type Query { user(id: ID!, tags: [String!], f: Filter): User users(first: Int = 3, ids: [ID!]!): [User!]! search(text: String!): [Thing!]! me: User node(id: ID!): Node }
-type Mutation { rename(id: ID!, newName: String!): User }
+scalar Stamp
+type Query { events(after: Stamp!, before: Stamp, third: Stamp): [Post] user(id: ID!, tags: [String!], f: Filter): User users(first: Int = 3, ids: [ID!]!): [User!]! search(text: String!): [Thing!]! me: User node(id: ID!): Node }
+type Mutation { rename(id: ID!, newName: String!): User stamp(at: Stamp!, until: Stamp!): Post }
 interface Node { id: ID! }
 type User implements Node { id: ID! userName: String friends(first: Int, kinds: [Kind!]): [User!] bestFriend(depth: Int): User posts(after: String): [Post] }
 type Post implements Node { id: ID! title: String author: User comments(limit: Int!): [String] }
@@ -43,11 +44,15 @@ SHAPES = [
     ("same_arg_parent_child", 'Query.users(ids=None, first=5).fields(UserFields.friends(first=6).fields(UserFields.id))' if False else
      'Query.user(id="9").fields(UserFields.posts(after="p").fields(PostFields.author().fields(UserFields.posts(after="q").fields(PostFields.title))))',
      {"id": ("ID!", "9"), "after": ("String", "p"), "after#2": ("String", "q")}),
+    # a scalar configured with serialize=json.dumps: every argument of it travels as dumps(value), the first one and the later ones
+    ("scalar_one", 'Query.events(after="a").fields(PostFields.id)', {"after": ("Stamp!", '"a"')}),
+    ("scalar_three", 'Query.events(after="a", before="b", third="c").fields(PostFields.title)', {"after": ("Stamp!", '"a"'), "before": ("Stamp", '"b"'), "third": ("Stamp", '"c"')}),
 ]
 NSH = len(SHAPES)
 PREFIXES = [[], [8], [1], [8, 1], [5, 6]]
 KNOWN_SHAPES = {"user_tags": "C14-list-type-dropped", "users_ids": "C14-list-type-dropped", "best_friend": "C14-snake-name-as-graphql-name",
-                "deep": "C14-deep-variables-undeclared", "same_arg_parent_child": "C14-deep-variables-undeclared"}
+                "deep": "C14-deep-variables-undeclared", "same_arg_parent_child": "C14-deep-variables-undeclared",
+                "scalar_one": "C14-serialize-called-on-none"}
 
 CHILD = r'''
 import sys, json, importlib
@@ -106,7 +111,8 @@ _BASES = {}
 try:
     with opened_auditwall():
         for _async in (False, True):
-            _r = gen.generate({"schema": SDL, "queries": "query Q { me { id } }", "config": {"enable_custom_operations": True, "async_client": _async, "target_package_name": "p14"}})
+            _r = gen.generate({"schema": SDL, "queries": "query Q { me { id } }", "config": {"enable_custom_operations": True, "async_client": _async, "target_package_name": "p14",
+                                                                                                    "scalars": {"Stamp": {"type": "str", "serialize": "json.dumps"}}}})
             if not _r["ok"]:
                 raise RuntimeError(f"generation failed: {_r['exc_type']}: {_r['exc_msg']}")
             _b = tempfile.mkdtemp(prefix="vh14_", dir="/tmp")
